@@ -30,3 +30,15 @@ Proof.
   exists tL, tB, tR.
   apply (planet_longitude_increasing _ _ _ tL tB tR tL_enc tB_enc tR_enc tL_check); discriminate.
 Qed.
+
+(* amplitude envelopes, |t| <= 4 millennia: |latitude series| <= nB / 1e23 rad and
+   |radius series - constant term| <= nR / 1e23 AU (plain sums of |A| 4^i over the tables) *)
+Definition nB : Z := Eval vm_compute in zabound 15 4 0 tB.
+Definition nR : Z := Eval vm_compute in zabound 15 4 0 (tail_table tR).
+
+Theorem venus_envelope_partial :
+  series_envelope (M_Venus.g_VSOP87_L Rops) (M_Venus.g_VSOP87_B Rops) (M_Venus.g_VSOP87_R Rops) nB nR.
+Proof.
+  apply (planet_envelope _ _ _ tL tB tR tL_enc tB_enc tR_enc); try discriminate;
+    vm_compute; reflexivity.
+Qed.
